@@ -22,7 +22,9 @@ def refs_in(v, out):
     """modelled objects referenced by a value, in the order copy.deepcopy visits them (containers are transparent)"""
     if isinstance(v, weakref.ref):
         t = v()
-        if t is not None and modelled(t):
+        if t is None:
+            out.append(('Dead', None))      # a weak reference whose target is gone
+        elif modelled(t):
             out.append(('Weak', t))
         return
     if modelled(v):
@@ -44,8 +46,7 @@ def fields_of(o):
     out = []
     if type(o).__name__ == '_SubUnitsList':
         owner = o._owner()
-        if owner is not None:
-            out.append(('Weak', owner))
+        out.append(('Weak', owner) if owner is not None else ('Dead', None))
         for e in o:
             refs_in(e, out)
         return out
@@ -64,10 +65,11 @@ def encode(root):
         addr[id(o)] = len(nodes)
         nodes.append(o)
         for _, t in reversed(fields_of(o)):
-            stack.append(t)
+            if t is not None:
+                stack.append(t)
     heap = []
     for o in nodes:
-        heap.append((type(o).__name__ != '_SubUnitsList', [(k, addr[id(t)]) for k, t in fields_of(o)]))
+        heap.append((type(o).__name__ != '_SubUnitsList', [(k, addr[id(t)] if t is not None else 0) for k, t in fields_of(o)]))
     return addr, nodes, heap
 
 
@@ -376,6 +378,9 @@ def deepcopies(chk, rng):
     return cases
 
 
+ORPHAN_CASES = []
+
+
 def orphans(chk, rng):
     """objects whose owner is gone (a unit taken out of a sequence that was then dropped, the roll of a dropped pass, a profile returned by a dropped unit):
     a deep copy is made like any other, and its back-reference names nothing, like the original's"""
@@ -410,8 +415,11 @@ def orphans(chk, rng):
                         gone = getattr(o, attr, None) is None
                     except Exception:      # noqa
                         gone = True
+                    addr, nodes, heap = encode(o)
+                    memo = {}
                     try:
-                        c = copy.deepcopy(o)
+                        c = copy.deepcopy(o, memo)
+                        ORPHAN_CASES.append((heap, addr[id(o)], [addr[k] for k in memo if k in addr and memo[k] is not nodes[addr[k]]]))
                     except Exception as e:      # noqa
                         return chk.fail('copy-of-orphan', f"[{name}] deep copy of a {what} ({data['object']}; its {attr} reads {'None' if gone else 'an object'}) raises "
                                         f"{type(e).__name__}: {e}", data)
@@ -469,6 +477,10 @@ def run(chk):
         chk.unshown_add('translator T-S', f"a value-producing function left the recognised fragment: {e}")
     rng = random.Random(chk.seed * 12 + 1200)
     cases = deepcopies(chk, rng)
+    if not chk.failures:
+        orphans(chk, rng)
+    n_plain = len(cases)
+    cases = cases + ORPHAN_CASES
     txt = ("From PyrollLib Require Import Heap.\nDefinition cases : list heap_case := [\n" +
            ";\n".join(f"({coq_heap(h)}, {r}%nat, Some [{'; '.join(str(a) + '%nat' for a in order)}])" for h, r, order in cases) + "].\n"
            "Eval vm_compute in (heap_mismatches cases 0).\n")
@@ -483,15 +495,13 @@ def run(chk):
             chk.unshown_add("correspondence:heapcases.v", "unreadable")
         else:
             bad = [int(x) for x in re.findall(r'\d+', m.group(1))]
-    chk.x_stats['correspondence_deepcopy'] = {'graphs': len(cases), 'objects': sum(len(c[0]) for c in cases), 'disagreements': len(bad)}
+    chk.x_stats['correspondence_deepcopy'] = {'graphs': len(cases), 'graphs_with_dead_references': sum(1 for c in cases if any(k == 'Dead' for _, fs in c[0] for k, _ in fs)), 'objects': sum(len(c[0]) for c in cases), 'disagreements': len(bad)}
     for i in bad[:3]:
         chk.unshown_add(f"correspondence:heap-case{i}", f"copy.deepcopy memoises the objects of graph {i} (root {cases[i][1]}, {len(cases[i][0])} objects) in the order "
                         f"{cases[i][2]}, the model predicts another order")
     for _ in range(1 if not chk.thorough else 6):
         if not chk.failures:
             histories(chk, rng)
-    if not chk.failures:
-        orphans(chk, rng)
     if not chk.failures:
         own_profile_again(chk)
     chk.cov['distinct_nontrivial'] += len(cases)
